@@ -282,6 +282,7 @@ func propC13(t *rapid.T) {
 	if err != nil {
 		t.Fatalf("VERIF-TROUBLE NewEtcdOp: %v", err)
 	}
+	defer etcdsrv.CloseClientsOf(etcdOp) // EtcdOp never closes its client
 	rm, _ := meta.NewReplicateMetaImpl(store.New())
 	mgr, err := reader.NewReplicateChannelManager(disp, dispatch.NewFactory(), tgt, config.ReaderConfig{MessageBufferSize: 4, TTInterval: 10000000, Retry: retry, ReplicateID: rid}, etcdOp, rm, nil, "milvus")
 	if err != nil {
